@@ -81,16 +81,31 @@ fn match_path_segments(segments: &[&str], old_segments: &[PathSegment]) -> Optio
     segments_iter.next().is_none().then_some(optionals)
 }
 
+/// Non empty segments of a path
+fn path_segments(path: &str) -> impl Iterator<Item = &str> {
+    path.split('/').filter(|s| !s.is_empty())
+}
+
+/// Returns the segments of `path` that come after the base path,
+/// or `None` if `path` is not under the base path.
+/// Whole segments are compared: `/foobar` is not under the base path `/foo`.
+fn strip_base_path<'a>(path: &'a str, base_path: &str) -> Option<Vec<&'a str>> {
+    let mut segments = path_segments(path);
+    for base_segment in path_segments(base_path) {
+        if segments.next()? != base_segment {
+            return None;
+        }
+    }
+    Some(segments.collect())
+}
+
 fn get_locale_from_path<L: Locale>(path: &str, base_path: &str) -> Option<L> {
-    let base_path = base_path.trim_start_matches('/');
-    let stripped_path = path
-        .trim_start_matches('/')
-        .strip_prefix(base_path)?
-        .trim_start_matches('/');
+    let segments = strip_base_path(path, base_path)?;
+    let first_segment = segments.first()?;
     L::get_all()
         .iter()
         .copied()
-        .find(|l| stripped_path.starts_with(l.as_str()))
+        .find(|l| l.as_str() == *first_segment)
 }
 
 fn construct_path_segments<'b, 'p: 'b>(
@@ -134,27 +149,22 @@ fn construct_path_segments<'b, 'p: 'b>(
 }
 
 fn localize_path<'b, 'p: 'b>(
-    path: &'p str,
+    path_segments: &[&'p str],
     old_locale_segments: &[Vec<PathSegment>],
     new_locale_segments: &'p [Vec<PathSegment>],
     path_builder: &mut PathBuilder<'b>,
 ) -> Option<()> {
-    let path_segments = path
-        .split('/')
-        .filter(|s| !s.is_empty())
-        .collect::<Vec<_>>();
-
     let (pos, optionals) =
         old_locale_segments
             .iter()
             .enumerate()
             .find_map(|(pos, old_segments)| {
-                match_path_segments(&path_segments, old_segments).map(|op| (pos, op))
+                match_path_segments(path_segments, old_segments).map(|op| (pos, op))
             })?;
 
     let new_segments = &new_locale_segments[pos];
 
-    construct_path_segments(&path_segments, new_segments, path_builder, &optionals);
+    construct_path_segments(path_segments, new_segments, path_builder, &optionals);
 
     Some(())
 }
@@ -174,16 +184,11 @@ fn get_new_path<L: Locale>(
         if new_locale != L::default() {
             path_builder.push(new_locale.as_str());
         }
-        if let Some(path_rest) = path_name.strip_prefix(base_path) {
+        if let Some(path_rest) = strip_base_path(path_name, base_path) {
             let path_rest = match locale {
-                None => path_rest,
-                Some(l) => {
-                    if let Some(path_rest) = path_rest.strip_prefix(l.as_str()) {
-                        path_rest
-                    } else {
-                        path_rest // Should happen only if l == L::default()
-                    }
-                }
+                Some(l) if path_rest.first() == Some(&l.as_str()) => &path_rest[1..],
+                // no locale prefix, should happen only if l == L::default()
+                _ => &path_rest[..],
             };
 
             let old_locale_segments = segments.get(&locale.unwrap_or_default());
@@ -201,7 +206,9 @@ fn get_new_path<L: Locale>(
             };
 
             if !localized {
-                path_builder.push(path_rest);
+                for segment in path_rest {
+                    path_builder.push(segment);
+                }
             }
 
             // else ?
